@@ -1021,10 +1021,27 @@ def jobs_rvc(tier, seed):
     return jobs
 
 
+def replay_fit(obs):
+    """native replay behind refuted fit-constraint obligations (structural, no verifier input): the real CubicSpline::Fit on a non-uniform grid"""
+    bad = [o for o in obs if o['status'] == core.REFUTED and '.fitbc.' in o['id'] and not o.get('replay')]
+    if not bad:
+        return
+    try:
+        exe = native.build('C12.fit', open(os.path.join(CDIR, 'replay_fit.cc')).read(), [], sanitize=False, opt='-O1', libs=native.libs(('votca_tools',)))
+        rc, out, err = native.execute(exe, [], timeout=300)
+        rep = {'reproduced': rc == 1, 'cmd': exe, 'rc': rc, 'stdout': out[-1000:], 'against': 'real CubicSpline::Fit / AddBCToFitMatrix / linalg_constrained_qrsolve (libvotca_tools from the working tree)',
+               'input_from': 'seeded input in the precondition domain (non-uniform fit grid, three boundary conditions)'}
+    except core.Undecided as e:
+        rep = {'reproduced': False, 'error': str(e)}
+    for o in bad:
+        o['replay'] = rep
+
+
 def run(tier, seed, only=None):
     jobs = jobs_rvc(tier, seed) + [(job_cubic_interpolate_allN, (seed, 0)), (job_cubic_interpolate_allN, (seed, 1)), (job_cubic_fitbc_allN, (seed, 0)), (job_cubic_fitbc_allN, (seed, 1)), (job_akima_allN, (seed,)), (job_deriv_allN, (seed,)), (job_linear_grid_allN, (seed,))] + [(job_getinterval, ('unbounded',)), (job_getinterval, ('twin',))] + [(job_getinterval_real, (k, seed)) for k in ((3, 4) if tier == 'quick' else (3, 4, 5, 6))] + [(job_grid, ('spline', seed)), (job_grid, ('table', seed))]
     if only:
         jobs = [j for j in jobs if re.search(only, j[0].__name__ + str(j[1]))]
     obs = core.pmap(jobs)
+    replay_fit(obs)
     collect(obs)
     return obs, META
